@@ -29,6 +29,60 @@ class Builtins:
             return m(fv.bound, args, kwargs, st, fr)
         return m(args, kwargs, st, fr)
 
+    # ------------------------------------------------------------------ arithmetic class interface
+    def b_V_mul(self, args, kw, st, fr):
+        from .arith import v_muldiv
+        return v_muldiv(self.ex.C, 'mul', args, kw, st, fr)
+
+    def b_V_div(self, args, kw, st, fr):
+        from .arith import v_muldiv
+        return v_muldiv(self.ex.C, 'div', args, kw, st, fr)
+
+    def b_V_muldiv(self, args, kw, st, fr):
+        from .arith import v_muldiv
+        return v_muldiv(self.ex.C, 'muldiv', args, kw, st, fr)
+
+    def b_V_report(self, args, kw, st, fr):
+        return self.ex.ok(SStr(), st)
+
+    def b_V_min(self, args, kw, st, fr):
+        return self._minmax(True, args, kw, st, fr)
+
+    def _frac(self, on):
+        def f(args, kw, st, fr):
+            import ast as _ast
+            return self.ex.binop(getattr(_ast, on)(), args[0], args[1], st, fr)
+        return f
+
+    def b_frac___mul__(self, *a):
+        return self._frac('Mult')(*a)
+
+    def b_frac___truediv__(self, *a):
+        return self._frac('Div')(*a)
+
+    def b_frac___add__(self, *a):
+        return self._frac('Add')(*a)
+
+    def b_frac___sub__(self, *a):
+        return self._frac('Sub')(*a)
+
+    def b_spec_floor_real(self, args, kw, st, fr):
+        "floor of a real-valued spec expression, as an Int"
+        x = args[0].t
+        key = ('floor', x.get_id())
+        q = st.ghost.get(key)
+        if q is None:
+            q = fresh_int('floor')
+            st.ghost[key] = q
+            st.assume(z3.And(z3.ToReal(q) <= x, x < z3.ToReal(q) + 1))
+            if self.ex.spec_pre is not None:
+                self.ex.spec_pre.assume(z3.And(z3.ToReal(q) <= x, x < z3.ToReal(q) + 1))
+        return self.ex.ok(SInt(q), st)
+
+    def b_spec_to_real(self, args, kw, st, fr):
+        v = args[0]
+        return self.ex.ok(SVal(z3.ToReal(v.t) if isinstance(v, SInt) else v.t), st)
+
     # ------------------------------------------------------------------ python builtins
     def b_len(self, args, kw, st, fr):
         ex = self.ex
@@ -433,6 +487,16 @@ class Builtins:
         if not isinstance(s, SStr):
             return self.ex.ok(SBool(False), st)
         return self.ex.ok(SBool(self.ex.C.str_denotes(s, num.t, den.t, st)), st)
+
+    def b_spec_has_underscore(self, args, kw, st, fr):
+        s = args[0]
+        if isinstance(s, SStr) and s.struct and s.struct[0] == 'concat' and len(s.struct[1]) == 2 and \
+                s.struct[1][0].lit == '-':
+            s = s.struct[1][1]
+        ok = isinstance(s, SStr) and bool(s.struct) and s.struct[0] == 'decg'
+        if ok:
+            return self.ex.ok(SBool(s.struct[6]), st)
+        return self.ex.ok(SBool(False), st)
 
     def b_spec_str_of_int(self, args, kw, st, fr):
         return self.ex.ok(self.ex.C.str_of(args[0], st), st)
